@@ -1285,6 +1285,34 @@ fn serde_slice(rep: &mut Report, seed: u64, scale: u64) {
             rep.fail("C16", problems.join("; "), "HashSet<()> / HashMap<(),()> / HashMap<(),u8> / HashMap<u8,()> round trips; phases: 0 empty, 1 one element, 2 parked by reserve, 3 emptied in place, 4 reserved empty, 5 moved".into());
         }
     }
+    // collections larger than the 4096 elements the visitors pre-allocate at most
+    {
+        let mut problems: Vec<String> = vec![];
+        for n in [4095u64, 4096, 4097, 5000, 9001] {
+            for hint in [None, Some(n as usize), Some(4096), Some(n as usize * 2)] {
+                let r = catch_unwind(AssertUnwindSafe(|| {
+                    let items: Vec<(u64, u64)> = (0..n).map(|i| (i * 7 + 1, i)).collect();
+                    let d: PM = PM::deserialize(mini_de::Map { items: items.clone(), hint }).unwrap();
+                    assert_eq!(d.len(), n as usize, "map of {n} elements, hint {hint:?}");
+                    assert!(items.iter().all(|(k, v)| d.get(k) == Some(v)));
+                    let keys: Vec<u64> = items.iter().map(|x| x.0).collect();
+                    let s: PS = PS::deserialize(mini_de::Seq { items: keys.clone(), hint }).unwrap();
+                    assert_eq!(s.len(), n as usize, "set of {n} elements, hint {hint:?}");
+                    let mut dst: PS = PS::with_hasher(VBuild::default());
+                    for i in 0..29 { dst.insert(1_000_000 + i); }
+                    PS::deserialize_in_place(mini_de::Seq { items: keys, hint }, &mut dst).unwrap();
+                    assert_eq!(dst.len(), n as usize, "set of {n} elements in place, hint {hint:?}");
+                }));
+                rep.evaluations += 1;
+                if r.is_err() {
+                    problems.push(format!("{n} elements, hint {hint:?}: {}", LAST_PANIC.with(|p| p.borrow().lines().last().unwrap_or("").to_string())));
+                }
+            }
+        }
+        if !problems.is_empty() {
+            rep.fail("C16", problems.join("; "), "deserialising 4095 … 9001 distinct elements under honest, absent, capped and overstated hints".into());
+        }
+    }
     for round in 0..rounds {
         let mut g = Rng::new(seed.wrapping_mul(4241).wrapping_add(round));
         let hk = *g.pick(&[HKind::Mul, HKind::Low]);
@@ -2561,6 +2589,43 @@ fn iters(rep: &mut Report, seed: u64, scale: u64) {
             iter_laws("symmetric_difference (swapped)", &|| b.symmetric_difference(&a).copied(), false, &mut p13);
             iter_laws("union (with itself)", &|| a.union(&a).copied(), false, &mut p13);
             iter_laws("symmetric_difference (with itself)", &|| a.symmetric_difference(&a).copied(), false, &mut p13);
+            // `Debug` of an iterator lists exactly what it has still to yield
+            {
+                let n = m.len();
+                for k in [0usize, 1.min(n), n / 2, n] {
+                    let cnt = |s: String, open: char| -> usize { s.chars().filter(|c| *c == open).count() };
+                    let mut it = m.iter();
+                    for _ in 0..k { it.next(); }
+                    if cnt(format!("{:?}", it), '(') != n - k { p8.push(format!("Debug of Iter after {k} of {n}")); }
+                    let mut ks = m.keys();
+                    for _ in 0..k { ks.next(); }
+                    let dk = format!("{:?}", ks);
+                    let listed = if dk.trim() == "[]" { 0 } else { dk.split(',').count() };
+                    if listed != n - k { p8.push(format!("Debug of Keys after {k} of {n}: {listed} listed")); }
+                    let mut vs = m.values();
+                    for _ in 0..k { vs.next(); }
+                    let dv = format!("{:?}", vs);
+                    let listed = if dv.trim() == "[]" { 0 } else { dv.split(',').count() };
+                    if listed != n - k { p8.push(format!("Debug of Values after {k} of {n}")); }
+                    let mut c = m.clone();
+                    let mut d = c.drain();
+                    for _ in 0..k { d.next(); }
+                    if cnt(format!("{:?}", d), '(') != n - k { p8.push(format!("Debug of Drain after {k} of {n}")); }
+                    drop(d);
+                    let mut ii = m.clone().into_iter();
+                    for _ in 0..k { ii.next(); }
+                    if cnt(format!("{:?}", ii), '(') != n - k { p8.push(format!("Debug of IntoIter after {k} of {n}")); }
+                }
+                let na = a.len();
+                let mut si = a.iter();
+                if na > 0 { si.next(); }
+                let ds = format!("{:?}", si);
+                let listed = if ds.trim() == "[]" { 0 } else { ds.split(',').count() };
+                if listed != na.saturating_sub(1) { p8.push("Debug of set Iter".into()); }
+                let du = format!("{:?}", a.union(&b));
+                let listed = if du.trim() == "[]" { 0 } else { du.split(',').count() };
+                if listed != a.union(&b).count() { p13.push("Debug of Union".into()); }
+            }
             // consuming / mutable iterators: one pass each through the operations that matter, against the first pass
             {
                 let seq: Vec<(u64, u64)> = m.clone().drain().collect();
